@@ -20,7 +20,9 @@ PARAMS = {
     "TLRemoveAt": ("l", "i", "how"), "TLClear": ("l",), "TLNewTree": ("l", "nsarg"), "TLRead": ("l", "srcs"),
     "TLCtorList": ("l", "nsarg"), "TLCtorTrees": ("ts", "nsarg"), "TLMigrate": ("l", "n", "unify"),
     "TLReconstruct": ("l", "unify"), "TLUpdate": ("l",), "TreeMigrate": ("t", "n", "unify"), "TreeClone": ("t", "nsarg"),
-    "TAAdd": ("a", "t"), "TARead": ("a", "srcs"), "CMNewSeq": ("m", "t"), "CMSetItem": ("m", "t"), "CMGetTaxon": ("m", "t"), "CMGetLabel": ("m", "lab"), "CMGetIndex": ("m", "i"),
+    "TAAdd": ("a", "t"), "TARead": ("a", "srcs"), "CMNewSeq": ("m", "t"), "TLAppendMemo": ("l", "t", "how", "k"), "TLMigrateMemo": ("l", "n", "k"), "TreeMigrateMemo": ("t", "n", "k"),
+    "CMMigrateMemo": ("m", "n", "k"), "TLNewTreeSeed": ("l", "refs", "labs"), "TreeFromSeed": ("nsarg", "refs", "labs"),
+    "CMSetItem": ("m", "t"), "CMGetTaxon": ("m", "t"), "CMGetLabel": ("m", "lab"), "CMGetIndex": ("m", "i"),
     "CMMigrate": ("m", "n", "unify"), "CMReconstruct": ("m", "unify"), "CMUpdate": ("m",), "CMFromDict": ("keys", "nsarg"),
     "CMClone": ("m", "nsarg"), "DSRead": ("src", "nsarg"), "DSReadBlocks": ("blocks", "nsarg"), "DSAddList": ("l",), "DSAddMat": ("m",), "DSNewList": ("nsarg",),
     "DSNewMat": ("nsarg",), "DSAttach": ("n",), "DSDetach": (), "DSUnify": ("nsarg",),
@@ -129,6 +131,7 @@ class World(object):
         self.d = dendropy
         self.tax, self.ns, self.trees, self.lists, self.mats, self.arrs = Reg(), Reg(), Reg(), Reg(), Reg(), Reg()
         self.ds = None
+        self.memos = []         # caller-owned taxon_mapping_memo dictionaries
         self.labels = []
 
     # ------------------------------------------------------------------ abstract -> real
@@ -157,6 +160,8 @@ class World(object):
             self.mats.id(cm)
         for a in u["arrs"]:
             self.arrs.id(d.TreeArray(taxon_namespace=self.ns[a["ns"]], is_rooted_trees=True))
+        for mm in u.get("memos", []):
+            self.memos.append(dict((self.tax[o], self.tax[t]) for o, t in mm))
         self.ds = d.DataSet()
         if u["ds"]["att"]:
             self.ds.attach_taxon_namespace(self.ns[u["ds"]["att"]])
@@ -215,9 +220,10 @@ class World(object):
         trees = [{"ns": tree_ns[k], "refs": [self.tax.id(x) for x in self.node_taxa(t)]} for k, t in enumerate(self.trees.objs)]
         mats = [{"ns": mats_ns[k], "rows": [self.tax.id(x) for x in list(m._taxon_sequence_map.keys())]}
                 for k, m in enumerate(self.mats.objs)]
+        memos = [[[self.tax.id(o), self.tax.id(t)] for o, t in list(mm.items())] for mm in self.memos]
         labels = [t.label if isinstance(t.label, str) else "<%r>" % (t.label,) for t in self.tax.objs]
         return {"labels": labels, "ns": nss, "trees": trees, "lists": lists, "mats": mats, "arrs": arrs,
-                "ds": {"att": att, "lists": ds_lists, "mats": ds_mats}}
+                "ds": {"att": att, "lists": ds_lists, "mats": ds_mats}, "memos": memos}
 
     # ------------------------------------------------------------------ one public call
     def _do(self, name, a, rng):
@@ -290,6 +296,32 @@ class World(object):
             return (lambda: T[a["t"]].migrate_taxon_namespace(N[a["n"]], unify_taxa_by_label=a["unify"])), "migrate"
         if name == "TreeClone":
             return (lambda: d.Tree(T[a["t"]], **nskw(a["nsarg"]))), "Tree(tree)"
+        if name == "TLAppendMemo":
+            if a["how"] == "insert":
+                return (lambda: L[a["l"]].insert(0, T[a["t"]], taxon_mapping_memo=self.memos[a["k"] - 1])), "insert+memo"
+            return (lambda: L[a["l"]].append(T[a["t"]], taxon_mapping_memo=self.memos[a["k"] - 1])), "append+memo"
+        if name == "TLMigrateMemo":
+            via = pick("migrate", "assign+reconstruct")
+            if via == "migrate":
+                return (lambda: L[a["l"]].migrate_taxon_namespace(N[a["n"]], taxon_mapping_memo=self.memos[a["k"] - 1])), via
+
+            def reassign_memo():
+                L[a["l"]].taxon_namespace = N[a["n"]]
+                L[a["l"]].reconstruct_taxon_namespace(taxon_mapping_memo=self.memos[a["k"] - 1])
+            return reassign_memo, via
+        if name == "TreeMigrateMemo":
+            return (lambda: T[a["t"]].migrate_taxon_namespace(N[a["n"]], taxon_mapping_memo=self.memos[a["k"] - 1])), "migrate+memo"
+        if name == "CMMigrateMemo":
+            return (lambda: M[a["m"]].migrate_taxon_namespace(N[a["n"]], taxon_mapping_memo=self.memos[a["k"] - 1])), "migrate+memo"
+        if name in ("TLNewTreeSeed", "TreeFromSeed"):
+            # a node structure made by hand: existing Taxon objects (of whatever namespace) and brand-new ones
+            def seeded():
+                taxa = [X[r] for r in a["refs"]] + [d.Taxon(label=lab) for lab in a["labs"]]
+                seed = vbuild.build_node(d, tree_shape(len(taxa)), taxa)
+                if name == "TLNewTreeSeed":
+                    return L[a["l"]].new_tree(seed_node=seed)
+                return d.Tree(seed_node=seed, **nskw(a["nsarg"]))
+            return seeded, "seed_node"
         if name == "TAAdd":
             via = pick("add_tree", "append", "insert", "add_trees")
             arr, t = A[a["a"]], T[a["t"]]
@@ -374,6 +406,10 @@ class World(object):
             if k == "m" and not has(self.mats, v):
                 return False
             if k == "a" and not has(self.arrs, v):
+                return False
+            if k == "k" and not has(self.memos, v):
+                return False
+            if k == "refs" and not all(has(self.tax, t) for t in v):
                 return False
         return True
 
